@@ -7,6 +7,29 @@ _A_NOTE = ('Trusted: CrossHair 0.0.110 proxy semantics and path pruning, z3 5.1.
            'before a VIOLATION is printed.')
 
 CLAIMS = {
+    'C09': dict(
+        engine='A-crosshair+B2-codec-stub',
+        technique='bounded symbolic execution of the real code (CrossHair + z3) with a validated codec model; solver-enumerated bounded family for the JSON text stage',
+        text=('(1a) For each of 51 boundary leaf values (ints up to 10**400, special floats incl. NaN / inf / -0.0, '
+              'complex, strs with quotes / backslash / NUL / lone surrogate / astral characters, escape-like bytes, '
+              'bools, None, Ellipsis, enum members, a type, a function, slice, frozenset, nested tuple, NO_VALUE, named '
+              'tuple, a registered constant, range, bytearray, empty containers) in 11 container positions (direct, '
+              'list, tuple, dict value, dict key, set / frozenset element, named tuple, defaultdict, dict-based '
+              'registered object, nested), three Buildable shapes (Config; Partial with ArgFactory; positional '
+              'arguments), tags incl. value-less ones, shared vs copied containers: dump_json raises (input untouched) '
+              'or emits text that json.loads accepts, load_json rebuilds a canonically equal value (types, leaves, '
+              'callables, tags, sharing, unset stays unset) without invoking anything, and a second dump gives the '
+              'same document up to set order. (1b) The same for unbounded symbolic int / bool and short symbolic str '
+              'leaves and a symbolic sharing flag through the real Serialization / Deserialization classes with the '
+              'text stage replaced by the jsonify stub. (2, 3) For every pyref of a document rewritten to one of eight '
+              'hostile targets (os.system, builtins.eval, attribute chains, a missing module, a non-traverser type, a '
+              'recording function), every position of a refused allows_import / allows_value answer, cold or after a '
+              'permissive load of the same document: every import is immediately preceded by an approving '
+              'allows_import for that module, nothing happens after a refusal, a refusal surfaces as PyrefPolicyError, '
+              'nothing configured is ever called; DefaultPyrefPolicy refuses os.system and builtins.eval. (4) For '
+              'every bytes value of length <= 6 (thorough: <= 8) unflatten(flatten(b)) == b through the registered '
+              'traverser.'),
+        note=_A_NOTE + ' (1a), the default-policy and the end-to-end bytes obligations run with realised selectors under NoTracing (the JSON text stage is C code). The raw_unicode_escape model is only plugged in when the source uses that codec; it is validated against the C codec on every run.'),
     'C10': dict(
         engine='A-crosshair',
         technique='bounded symbolic execution of the real code (CrossHair + z3); canonical form of apply_diff(build_diff(old, new), copy of old) versus new',
